@@ -25,10 +25,11 @@ RULE = (
     '<=3 temporal operators, optional fairness list) evaluated under a '
     'baseline (canonical presentation, no seam) and 6 perturbed executions, '
     'each drawing a subset of: simulator-chosen iteration order of every set '
-    'the checkers build (seam S1), state bijection onto another type family, '
-    'shuffled S/R/L and label order, omitted S, duplicated transitions, atom '
-    'renaming, unreachable padding states, initial states, other container '
-    'types for S/R/S0/labels (tuple, set, frozenset, dict keys).  evaluations = '
+    'the checkers build (seam S1), state bijection onto another type family '
+    '(optionally with equal-but-distinct objects per use), shuffled S/R/L/S0 '
+    'and label order, atom renaming, unreachable padding states, other '
+    'container types for S/R/S0/labels (tuple, set, frozenset, dict keys).  '
+    'The initial states are part of the case, not of the presentation.  evaluations = '
     'executions (baseline + perturbed + stage-2 interpreter evaluations).  A '
     'case is NON-TRIVIAL when at least one of its executions made a '
     'non-identity scheduler decision at a site with >=2 elements or used a '
@@ -151,6 +152,7 @@ def _drop_state(case, presl, k):
         if any(not P for P in F):
             return None
         c['F'] = F
+    c['S0'] = [x - (x > k) for x in (case.get('S0') or []) if x != k]
     emap = dict((old, new) for new, old in enumerate(keep_e))
     out = []
     for p in presl:
@@ -158,7 +160,6 @@ def _drop_state(case, presl, k):
         p['smap'] = [v for i, v in enumerate(p['smap']) if i != k]
         p['S'] = [i - (i > k) for i in p['S'] if i != k]
         p['L'] = [i - (i > k) for i in p['L'] if i != k]
-        p['S0'] = [i - (i > k) for i in p.get('S0', []) if i != k]
         p['R'] = [emap[e] for e in p['R'] if e in emap]
         out.append(p)
     return c, out
@@ -176,7 +177,7 @@ def minimise_pair(case, pa, pb, timeout, budget=160):
     ident = c06.identity_presentation(case)
     # 1. presentation components back to identity
     for p in (pa, pb):
-        for key in ('pad', 'amap', 'S0', 'lab_rot', 'S_given', 'fresh',
+        for key in ('pad', 'amap', 'S0rot', 'lab_rot', 'fresh',
                     'smap', 'S', 'R', 'L', 'ctype'):
             if tests[0] >= budget:
                 break
@@ -191,7 +192,6 @@ def minimise_pair(case, pa, pb, timeout, budget=160):
                 p['S'] = [i for i in p['S'] if i < n]
                 p['L'] = [i for i in p['L'] if i < n]
                 p['R'] = [k for k in p['R'] if k < ne]
-                p['S0'] = [i for i in p.get('S0', []) if i < n]
             elif key in ('S', 'L'):
                 p[key] = sorted(p[key])
             elif key == 'R':
